@@ -99,6 +99,30 @@ def run_scripts(res, rng, n):
             steps.append((t, rng.choice([0, 2, 3]), rng.choice([0, 1000]), 0, -1, 7, 1))
             t += NS
         scripts.append((start, rng.choice([-1, 5]), steps))
+    # the PHC's attribute missing for many polls in a row while the PHC is the reference, then there again:
+    # every one of those reports is unusable, and the bound is added again as soon as it can be read
+    for _ in range(max(2, n // 30)):
+        start = rng.randrange(10, 1000) * NS
+        cfg = 0x50484330
+        steps, t = [], start + NS
+        for i in range(rng.randrange(6, 11)):
+            steps.append((t, 1, rng.choice([0, 1000]), rng.choice([0, 0, GRACE]), -1, cfg, rng.randrange(1, 60000)))
+            t += NS + rng.randrange(NS)
+        for i in range(rng.randrange(1, 3)):
+            steps.append((t, 1, 0, 0, rng.choice([4321, 250000]), cfg, rng.randrange(1, 60000)))
+            t += NS
+        scripts.append((start, cfg, steps))
+    # a chronyd that holds its socket but stops replying (each silent query costs three seconds of real time,
+    # hence few of these): within the grace period of the last good answer the outcome is still the milder one
+    for _ in range(2 if n < 500 else 8):
+        start = rng.randrange(10, 1000) * NS
+        t = start + NS
+        steps = [(t, 1, 1000, 0, -1, 7, rng.randrange(1, 60000))]
+        t += NS + rng.randrange(NS)
+        steps.append((t, 5, 0, rng.choice([0, 1000, 2 * NS]), -1, 7, 1))
+        t += rng.choice([NS, 6 * NS])
+        steps.append((t, rng.choice([5, 3]), 0, 0, -1, 7, 1))
+        scripts.append((start, -1, steps))
     lines = [line_of(*s) for s in scripts]
     impl = c.run_lines_in_namespace(binary, lines, timeout=1500)
     model = c.run_model(lines)
